@@ -35,6 +35,10 @@ uninterp spec fn tail_written(dir: Seq<u8>, count: Option<u64>) -> bool;
 // directory `name` was created under `dir`
 uninterp spec fn subdir_made(dir: Seq<u8>, name: Seq<u8>) -> bool;
 
+// what probing "is `name` a file in directory `dir`" yields during this operation (one task, nobody else writes: C06 is
+// out of reach): Ok(present) or Err = storage fault
+uninterp spec fn file_probe(dir: Seq<u8>, name: Seq<char>) -> std::result::Result<bool, ()>;
+
 // ---------- guarded destruction (DESIGN 4.4) ----------
 // the caller's plan allows removing directory `name` (recursively) under `dir`.  Never defined: it can only come
 // from a precondition, so a removal of anything the caller did not name is unprovable.
@@ -46,6 +50,7 @@ enum Error {
     UnsupportedBandVersion { band_id: BandId, version: String },
     UnsupportedBandFormatFlags { band_id: BandId, unsupported_flags: Vec<CowStr> },
     BandNotFound { band_id: BandId },
+    InvalidVersion { version: String },
     Other,
 }
 
@@ -138,6 +143,15 @@ impl Transport {
         ensures r is Ok ==> subdir_made(self.dir(), relpath.spec_bytes()),
     { unimplemented!() }
 
+    // Transport::is_file (src/transport.rs): Ok(true) iff `path` names a regular file, Ok(false) if it is absent or
+    // something else, Err on a storage fault.  `file_probe` is the outcome function (see head_read below for the idiom).
+    #[verifier::external_body]
+    async fn is_file(&self, path: &str) -> (r: std::result::Result<bool, TransportError>)
+        ensures
+            r matches Ok(b) ==> file_probe(self.dir(), path@) == Ok::<bool, ()>(b),
+            r is Err ==> file_probe(self.dir(), path@) is Err,
+    { unimplemented!() }
+
     // DESTRUCTIVE (4.4): only what the caller's plan names may be removed.
     #[verifier::external_body]
     async fn remove_dir_all(&self, relpath: &str) -> (r: std::result::Result<(), TransportError>)
@@ -167,12 +181,133 @@ impl Archive {
     { unimplemented!() }
 }
 
-// <BandId as Display>::fmt via ToString (src/bandid.rs: `f.pad(&format!("b{:0>4}", self.0))`): R5.
-impl BandId {
+// ---------- BandId as text (src/bandid.rs `impl Display`, `impl FromStr`) ----------
+// std::fmt::Formatter (R3 shim).  `out()` = the bytes emitted so far; `plain()` = a formatter as `ToString::to_string`
+// and a bare `{}` make it: no width/precision/fill options, writing into a String (which cannot fail).
+#[verifier::external_body]
+struct Formatter { _p: () }
+
+#[verifier::external_body]
+struct FmtError { _p: () }
+
+// (`Result::expect` needs `E: Debug`)
+#[verifier::external]
+impl std::fmt::Debug for FmtError {
+    fn fmt(&self, f: &mut std::fmt::Formatter<'_>) -> std::fmt::Result { f.write_str("fmt error") }
+}
+
+// std::fmt::Result
+type FmtResult = std::result::Result<(), FmtError>;
+
+impl Formatter {
+    uninterp spec fn out(&self) -> Seq<u8>;
+    uninterp spec fn plain(&self) -> bool;
+
+    // std `Formatter::pad`: "takes a string slice and emits it to the internal buffer after applying the relevant
+    // formatting flags specified": with no flags the slice is emitted as it is.
     #[verifier::external_body]
+    fn pad(&mut self, s: &str) -> (r: FmtResult)
+        ensures
+            final(self).plain() == old(self).plain(),
+            old(self).plain() ==> r is Ok && final(self).out() == old(self).out() + s.spec_bytes(),
+    { unimplemented!() }
+
+    // the two ends of std's `impl<T: fmt::Display + ?Sized> ToString for T` (see BandId::to_string below)
+    #[verifier::external_body]
+    fn shim_new_for_to_string() -> (r: Formatter)
+        ensures r.plain(), r.out() == Seq::<u8>::empty(),
+    { unimplemented!() /* let mut buf = String::new(); Formatter::new(&mut buf) */ }
+
+    #[verifier::external_body]
+    fn shim_into_string(self) -> (r: String)
+        ensures bytes_of(r@) == self.out(),
+    { unimplemented!() /* buf */ }
+}
+
+// R5: `format!("b{:0>W}", n)` for an unsigned n: 'b', then n in decimal right-aligned in W columns filled with '0'
+// (std::fmt: fill '0', alignment '>', width W; a longer number is not truncated).
+#[verifier::external_body]
+fn shim_fmt_b_zero_padded(n: u32, width: usize) -> (r: String)
+    ensures bytes_of(r@) == seq![0x62u8] + dec_pad(n as nat, width as nat),
+{ unimplemented!() /* format!("b{:0>width$}", n) */ }
+
+// R4: `s.strip_prefix(c)` for an ASCII char c (std: "Returns a string slice with the prefix removed ... If the string
+// does not start with prefix, returns None").
+#[verifier::external_body]
+fn shim_strip_prefix_char<'a>(s: &'a str, c: char) -> (r: Option<&'a str>)
+    requires (c as u32) < 0x80,
+    ensures
+        match r {
+            Some(t) => s.spec_bytes().len() > 0 && s.spec_bytes()[0] == c as u8 && t.spec_bytes() == s.spec_bytes().skip(1),
+            None => s.spec_bytes().len() == 0 || s.spec_bytes()[0] != c as u8,
+        },
+{ s.strip_prefix(c) }
+
+// core::num `impl FromStr for u32` (radix 10), written out: an optional leading '+', then ONE OR MORE ASCII digits,
+// and the value must fit u32.  Everything else -- empty text, a lone sign, '-', any other byte, overflow -- is an Err
+// (never a panic: C10).
+spec fn parse_u32_spec(b: Seq<u8>) -> Option<u32> {
+    let d = if b.len() > 0 && b[0] == 0x2bu8 { b.skip(1) } else { b };
+    if d.len() > 0 && all_digits(d) && dec_value(d) <= u32::MAX { Some(dec_value(d) as u32) } else { None }
+}
+
+#[verifier::external_body]
+struct ParseIntError { _p: () }
+
+// (`Result::unwrap` needs `E: Debug`; only reachable after an edit of the source)
+#[verifier::external]
+impl std::fmt::Debug for ParseIntError {
+    fn fmt(&self, f: &mut std::fmt::Formatter<'_>) -> std::fmt::Result { f.write_str("parse int error") }
+}
+
+// R4: `text.parse::<u32>()`
+#[verifier::external_body]
+fn shim_parse_u32(s: &str) -> (r: std::result::Result<u32, ParseIntError>)
+    ensures
+        r is Ok <==> parse_u32_spec(s.spec_bytes()) is Some,
+        r matches Ok(v) ==> parse_u32_spec(s.spec_bytes()) == Some(v),
+{ unimplemented!() /* s.parse::<u32>() */ }
+
+// R5: `s.into()` as the payload of Error::InvalidVersion (a copy of the text; no contract speaks about it)
+#[verifier::external_body]
+fn shim_str_into_string(s: &str) -> (r: String)
+    ensures r@ == s@,
+{ s.into() }
+
+// What BandId::from_str must accept (format.md "Bands": `b` followed by the number): 'b' then a u32 in decimal.
+spec fn band_id_parse(b: Seq<u8>) -> Option<u32> {
+    if b.len() > 0 && b[0] == 0x62u8 { parse_u32_spec(b.skip(1)) } else { None }
+}
+
+// ROUND TRIP: the directory name Display emits for an id parses back to that id (so a band that was created is found
+// again by list_band_ids under the same id: C07 "a new version always gets an id above every existing one" relies on it).
+proof fn lemma_band_id_round_trip(n: u32)
+    ensures band_id_parse(band_dir_name(n)) == Some(n), //# C13.band_dir_name_round_trip,C07.band_dir_name_round_trip
+{
+    lemma_dec_pad(n as nat, 4);
+    lemma_dec_digits(n as nat);
+    let d = dec_pad(n as nat, 4);
+    assert(d.len() >= 1);
+    assert(band_dir_name(n).skip(1) =~= d);
+    assert(is_digit(d[0]));
+}
+
+impl BandId {
+    // std's blanket `impl<T: fmt::Display + ?Sized> ToString for T`, transcribed:
+    //     let mut buf = String::new();
+    //     let mut formatter = core::fmt::Formatter::new(&mut buf);
+    //     fmt::Display::fmt(self, &mut formatter).expect("a Display implementation returned an error unexpectedly");
+    //     buf
+    // VERIFIED against the contract PROVED for the real `<BandId as Display>::fmt` (units/band.vu); it used to be an
+    // assumed contract.  (What stays assumed: Formatter::pad, the format! shim, the two ends of the formatter.)
     fn to_string(&self) -> (r: String)
         ensures bytes_of(r@) == band_dir_name(self.0),
-    { format!("b{:0>4}", self.0) }
+    {
+        let mut formatter = Formatter::shim_new_for_to_string();
+        self.fmt(&mut formatter).expect("a Display implementation returned an error unexpectedly");
+        proof { assert(Seq::<u8>::empty() + band_dir_name(self.0) =~= band_dir_name(self.0)); }
+        formatter.shim_into_string()
+    }
 }
 
 // jiff::Timestamp: opaque; timestamps enter only BANDHEAD/BANDTAIL and no contract speaks about their value.
